@@ -104,9 +104,13 @@ def _predictive(rng, n_out=None, sbml=False):
             m.set_outputs(['central.drug_concentration',
                            'central.drug_amount'][:n_out])
         else:
-            # the outputs are named when the predictive model is created
+            # the outputs are named when the predictive model is created;
+            # the user's model may already return the same outputs in
+            # another order
             outs_arg = ['central.drug_amount',
                         'central.drug_concentration'][:n_out]
+            if n_out == 2 and rng.random() < 0.6:
+                m.set_outputs(outs_arg[::-1])
     else:
         n_out = n_out or int(rng.integers(1, 4))
         m = toys.ToyMulti(n_out)
